@@ -121,6 +121,27 @@ def opPsych : P String := do
   let fs := psyFaces minT maxT hours
   pure (s!"ok {fs.length} " ++ joinSp (fs.map fun f => s!"{f.1} {f.2.1} {f.2.2}"))
 
+def pPForm : P PForm := do
+  let t ← tok
+  match t with
+  | "const" => pure .const
+  | "daily" => pure .daily
+  | "hourly" => do let ts ← pNat; pure (.hourly ts)
+  | _ => failure
+
+/-- Round 6: cells and HOURS per cell for the two input forms (number / hourly at a timestep / daily). -/
+def opPforms : P String := do
+  let tf ← pPForm; let rf ← pPForm
+  let minT ← pInt; let maxT ← pInt
+  let hours ← pList (do let t ← pRat; let rh ← pRat; pure (t, rh))
+  pEnd
+  let counts := psyCounts minT maxT hours
+  -- `__init__` refuses a range below 10 degrees and a chart without any value on it (as `PObj.fresh`)
+  if maxT - minT < 10 ∨ hourValues counts = [] then pure "err:assert" else
+  let fs := facesOfCounts (tCats minT maxT).length counts
+  let hv := cellHours tf rf counts
+  pure (s!"ok {fs.length} " ++ joinSp ((fs.zip hv).map fun f => s!"{f.1.1} {f.1.2} {showRat f.2}"))
+
 /-! ### Object histories (round 3): one response token group per step, separated by `;` -/
 
 def showOErr : OErr → String
@@ -232,6 +253,7 @@ def handle (toks : List String) : String :=
   | "mbars" :: r => run opMbars r
   | "dbars" :: r => run opDbars r
   | "psych" :: r => run opPsych r
+  | "pforms" :: r => run opPforms r
   | "whist" :: r => run opWhist r
   | "bhist" :: r => run opBhist r
   | "phist" :: r => run opPhist r
